@@ -1049,7 +1049,10 @@ def judge(res: Result, item: dict, expect: Expect, case: Any, captured: dict, wi
         hit = [v for v in found if v[0]["kind"] in url_kinds or (v[0]["kind"] == "parameter_not_recovered" and v[0].get("location") == "path"
                                                                   and v[0].get("cause") in ("different_value", "not_decodable_in_declared_style",
                                                                                             "absent_on_wire", "dot_segment_resolved"))]
-        if chars and hit:
+        first = min((value.index(ch) for ch in "/?#" if ch in value), default=None)
+        seen_text = S._safe(S.pct_decode, raw_segments[p.name]) if p.name in raw_segments else None
+        evidence = any(v[0]["kind"] in url_kinds for v in hit) or (first is not None and seen_text == value[:first])
+        if chars and hit and evidence:
             found = [v for v in found if v not in hit]
             found.append(({**base_sig, "kind": "parameter_not_recovered", "cause": "reserved_character_not_escaped",
                           "characters": "+".join(chars), **p.facts()}, {**hit[0][1], "expected": value}))
